@@ -19,7 +19,7 @@ import (
 
 type gact struct {
 	AtMs int64 `json:"at_ms"`
-	Kind int   `json:"kind"` // 1 application send, 2 inbound Heartbeat, 3 inbound application message
+	Kind int   `json:"kind"` // 1 application send, 2 inbound Heartbeat, 3 inbound application message, 4 inbound ResendRequest(1,0)
 }
 
 type gridCase struct {
@@ -69,6 +69,10 @@ func gridRun(c gridCase) (o gridObs, sig, detail string) {
 		case 3:
 			o.inAt = append(o.inAt, vsched.NowOffset())
 			w.h.ServeIncoming(w.msg("D", "11=x"))
+		case 4:
+			// the retransmissions it draws are outbound traffic like any other
+			o.inAt = append(o.inAt, vsched.NowOffset())
+			w.h.ServeIncoming(w.msg("2", "7=1", "16=0"))
 		}
 		vsched.Settle()
 	}
@@ -107,12 +111,17 @@ func c08Oracle(c gridCase, o gridObs) (string, string) {
 	if len(tl) == 0 {
 		return "no-logon-message", ""
 	}
+	maxSeq := seqOf(tl[0].Msg)
 	for i := 1; i < len(tl); i++ {
+		retrans := seqOf(tl[i].Msg) <= maxSeq // a retransmission (old number) answering a ResendRequest
+		if !retrans {
+			maxSeq = seqOf(tl[i].Msg)
+		}
 		gap := tl[i].At - tl[i-1].At
 		if gap > Nd+tau {
 			return "silent-too-long", fmt.Sprintf("gap %v > %v between %s@%v and %s@%v", gap, Nd+tau, typeName(mtype(tl[i-1].Msg)), tl[i-1].At, typeName(mtype(tl[i].Msg)), tl[i].At)
 		}
-		if mtype(tl[i].Msg) == "0" {
+		if mtype(tl[i].Msg) == "0" && !retrans {
 			if _, has := get(tl[i].Msg, "112"); !has && gap < Nd {
 				return "heartbeat-too-early", fmt.Sprintf("unsolicited Heartbeat at %v only %v after %s@%v", tl[i].At, gap, typeName(mtype(tl[i-1].Msg)), tl[i-1].At)
 			}
@@ -310,6 +319,10 @@ func runGrid(R *vlib.Out, prop string) {
 		"C09": {"quick": {1, 20, 40}, "thorough": {1, 5, 20, 39, 40, 60}},
 	}[prop][*vlib.Tier]
 	maxActs := 2
+	nKinds := 3
+	if prop == "C08" {
+		nKinds = 4
+	}
 	R.Bounds["N"] = fmt.Sprint(Ns)
 	R.Bounds["max_actions_fine_grid"] = maxActs
 	unit := 0
@@ -340,7 +353,7 @@ func runGrid(R *vlib.Out, prop string) {
 					return true
 				}
 				for gi := start; gi < len(g); gi++ {
-					for k := 1; k <= 3; k++ {
+					for k := 1; k <= nKinds; k++ {
 						if !rec(gi+1, append(append([]gact{}, acts...), gact{g[gi], k}), max, g) {
 							return false
 						}
